@@ -62,11 +62,14 @@ from financepy.products.rates.ibor_single_curve import IborSingleCurve  # noqa: 
 from financepy.products.equity.equity_vanilla_option import EquityVanillaOption  # noqa: E402
 from financepy.products.equity.equity_american_option import EquityAmericanOption  # noqa: E402
 from financepy.products.fx.fx_vanilla_option import FXVanillaOption  # noqa: E402
+from financepy.products.credit.cds import CDS  # noqa: E402
+from financepy.products.credit.cds_curve import CDSCurve  # noqa: E402
+from financepy.models.heston import Heston  # noqa: E402
 
 CLS = {c.__name__: c for c in (
     Date, Calendar, Schedule, BlackScholes, Black, HWTree, BKTree, BDTTree, DiscountCurveFlat, DiscountCurve, Bond,
     BondEmbeddedOption, SwapFixedLeg, SwapFloatLeg, IborSwap, IborDeposit, IborFRA, IborSwaption, IborCapFloor,
-    IborSingleCurve, EquityVanillaOption, EquityAmericanOption, FXVanillaOption)}
+    IborSingleCurve, EquityVanillaOption, EquityAmericanOption, FXVanillaOption, CDS, CDSCurve, Heston)}
 ENUMS = {e.__name__: e for e in (
     DateFormatTypes, CalendarTypes, BusDayAdjustTypes, DateGenRuleTypes, FrequencyTypes, DayCountTypes, SwapTypes,
     OptionTypes, FinCapFloorTypes, FinExerciseTypes, BlackScholesTypes, BlackTypes, FinHWEuropeanCalcType, InterpTypes,
